@@ -134,6 +134,38 @@ def _f_wrap(i, w):
     return f
 
 
+DEEP7 = "[[[T!]!]!]!"  # 7 wrappers: the deepest chain the standard introspection query can express
+DEEP6 = "[[[T!]!]!]"
+
+
+def f_wrap_deep(sm):
+    ensure_enum(sm)
+    ensure_input(sm)
+    args = []
+    fields = []
+    for i, w in enumerate((DEEP7, DEEP6)):
+        for n, t in (("i", "Int"), ("c", "Color"), ("o", "Inp")):
+            args.append(mk_ival("%s%d" % (n, 7 - i), w.replace("T", t)))
+            fields.append(mk_ival("%s%d" % (n, 7 - i), w.replace("T", t)))
+    _qfield(sm, mk_field("deep7", DEEP7.replace("T", "Int"), args=args))
+    _qfield(sm, mk_field("deep6", DEEP6.replace("T", "Color")))
+    _qfield(sm, mk_field("deepQ", DEEP7.replace("T", "Query")))
+    _add_type(sm, mk_type("input", "DeepIn", fields=fields))
+    _qfield(sm, mk_field("deepIn", "Int", args=[mk_ival("v", "DeepIn")]))
+
+
+def f_iface_unimplemented(sm):
+    """an interface nobody implements, used as a field type"""
+    _add_type(sm, mk_type("interface", "Lonely", fields=[mk_field("id", "ID"), mk_field("self", "Lonely")]))
+    _qfield(sm, mk_field("lonely", "Lonely"))
+
+
+def f_union_single(sm):
+    _add_type(sm, mk_type("object", "Only", fields=[mk_field("o", "Int")]))
+    _add_type(sm, mk_type("union", "Solo", members=["Only"]))
+    _qfield(sm, mk_field("solo", "Solo"))
+
+
 def L(kind, v):
     return [kind, v]
 
@@ -149,6 +181,23 @@ DEFAULT_GROUPS = {
     "int-max": [("a", "Int", I(2147483647))],
     "int-min": [("a", "Int", I(-2147483648))],
     "float": [("a", "Float", ["float", "1.5"]), ("b", "Float", I(2)), ("c", "Float", ["float", "1e3"]), ("d", "Float", ["float", "-0.25"])],
+    # floats that need all 17 significant digits, tiny / huge exponents, negative zero, integral floats; also
+    # inside list and input-object defaults
+    "float-precise": [
+        ("a", "Float", ["float", "0.30000000000000004"]),
+        ("b", "Float", ["float", "3.141592653589793"]),
+        ("c", "Float", ["float", "1e-13"]),
+        ("d", "Float", ["float", "2.5e-15"]),
+        ("e", "Float", ["float", "1.7976931348623157e308"]),
+        ("f", "Float", ["float", "-0.0"]),
+        ("g", "Float", ["float", "1.0"]),
+        ("h", "Float", ["float", "5e-324"]),
+        ("i", "Float!", ["float", "-123456789.12345679"]),
+        ("j", "Float", ["float", "1e21"]),
+        ("l", "[Float!]", ["list", [["float", "0.1"], ["float", "0.30000000000000004"], ["float", "1.0"], ["float", "1e-13"]]]),
+        ("o", "Fl", ["obj", [["x", ["float", "2.5e-15"]]]]),
+        ("ol", "[Fl]", ["list", [["obj", []], ["obj", [["y", ["float", "3.141592653589793"]]]]]]),
+    ],
     "string": [
         ("a", "String", ["str", "abc"]),
         ("b", "String", ["str", 'q"uo\\te']),
@@ -178,7 +227,11 @@ DEFAULT_GROUPS = {
     "scalar": [("a", "Date", ["str", "2020-01-01"])],
     "scalar-numstr": [("a", "Date", ["str", "1e3"]), ("b", "Date", ["str", "12"])],
 }
-_NEEDS = {"enum": ensure_enum, "obj": ensure_input, "scalar": ensure_scalar, "scalar-numstr": ensure_scalar}
+def ensure_float_input(sm):
+    _add_type(sm, mk_type("input", "Fl", fields=[mk_ival("x", "Float", default=["float", "0.1"]), mk_ival("y", "Float!", default=["float", "1.0"]), mk_ival("z", "[Float]", default=["list", [["float", "1e-13"]]])]))
+
+
+_NEEDS = {"float-precise": ensure_float_input, "enum": ensure_enum, "obj": ensure_input, "scalar": ensure_scalar, "scalar-numstr": ensure_scalar}
 
 
 def _f_default(group):
@@ -604,6 +657,8 @@ _reg("k:iface", f_iface)
 _reg("k:iface2", f_iface2)
 _reg("k:orphan", f_orphan)
 _reg("k:union", f_union)
+_reg("k:union-single", f_union_single)
+_reg("k:iface-unimplemented", f_iface_unimplemented)
 _reg("k:enum", f_enum)
 _reg("k:input", f_input)
 _reg("k:scalar", f_scalar)
@@ -611,6 +666,7 @@ _reg("k:mutation", f_mutation)
 _reg("k:subscription", f_subscription)
 for _i, _w in enumerate(WRAPPERS):
     _reg("w:" + _w, _f_wrap(_i + 1, _w))
+_reg("w:deep", f_wrap_deep)
 for _g in DEFAULT_GROUPS:
     _reg("d:" + _g, _f_default(_g))
 _reg("d:nested-defaults", f_nested_defaults)
